@@ -2,6 +2,7 @@ import PhysisModel.Base.Proto
 import PhysisModel.Base.FsText
 import PhysisModel.Model.Patch
 import PhysisModel.Spec.ZiPatch
+import PhysisModel.Spec.ZiPatchSparse
 /-!
 Driver for C03.  Case grammar (one line):
 
@@ -20,6 +21,16 @@ cmd := T:<platform>:<region>:<debug>:<version>:<deleted>:<seek>
 ```
 `cmds=-` is the empty list.  The answer's input field is `<api> <patch hex> …` — the patches
 encoded by `Spec.ZiPatch.encodePatch` (the harness takes the start tree from the case line).
+
+`applybig api=<…> tree=<tree> cmds=<cmd>,… [cmds=<cmd>,… …]` — same grammar, same encoder, for command
+lists whose block offsets / wipe counts / AddFile offsets reach byte offsets of 2^32 and more (files of
+4–32 GiB, sparse on the Rust side).  The expected tree is computed by the **sparse** evaluation of the
+reference semantics (`Spec/ZiPatchSparse.lean`: `runChainS` on run-length encoded contents, FNV-1a of a
+zero run by modular exponentiation), which `c03_sparse_refines` / `c03_sparse_chain` / `c03_sparse_text`
+prove equal to `Spec.ZiPatch.runChain` + `FsText.showTree` on the dense tree, for all inputs.  No `model`
+field: the dense model cannot be executed at these sizes; `c03_sparse_model` (= `c03_chain` through
+`c03_sparse_chain`) proves that the model's answer on these cases is the expected one.  A command list
+that is not well formed is a `bad-case` here (the generator emits well-formed lists only).
 -/
 namespace Physis.Driver.C03
 open Physis Physis.Proto Physis.Fs Physis.FsText Physis.Spec.ZiPatch
@@ -118,8 +129,23 @@ def handleCase (api tree : String) (cmdss : List String) : String :=
     | none => answer input model ["triv", "nwf"] (some model)
   | _, _, _ => bad
 
+def handleBig (api tree : String) (cmdss : List String) : String :=
+  match stripKey "api" api, (stripKey "tree" tree).bind parseTree, cmdss.mapM (fun s => (stripKey "cmds" s).bind parseCmds) with
+  | some api, some t, some pss =>
+    if !(api == "zipatch" || api == "game" || api == "boot") then bad else
+    if api == "boot" && !isFile t [Bytes.ofString "ffxivboot.ver"] then bad else
+    let st := Spec.ZiPatchSparse.liftTree t
+    if !Spec.ZiPatchSparse.WFchainS pss st then bad else
+    match Spec.ZiPatchSparse.runChainS pss st with
+    | some st' =>
+      let input := " ".intercalate (api :: (pss.map encodePatch).map toHexFast)
+      answer input ("ok " ++ Spec.ZiPatchSparse.showTreeS st' true) (if pss.flatten.isEmpty then ["triv"] else [])
+    | none => bad
+  | _, _, _ => bad
+
 def handle (line : String) : String :=
   match fields line with
+  | "applybig" :: api :: tree :: cmdss => if cmdss.isEmpty then bad else handleBig api tree cmdss
   | ["apply", api, tree, cmds] => handleCase api tree [cmds]
   | "chain" :: api :: tree :: cmdss => if cmdss.isEmpty then bad else handleCase api tree cmdss
   | _ => bad
